@@ -38,6 +38,8 @@ RULE = ('case = machine knobs: (sort-backed operator, 1..2 source tables, a '
         'an earlier pass or now. Non-trivial: the default call did not '
         'raise and some source has at least 2 data rows. Distinct: by '
         'digest of the whole case.')
+STATES = ('operator x machine x (knobs: set of knob names exercised | '
+          'history: cache flag x sequence of step kinds)')
 COMPONENTS = {
     'real': ['petl joins, set operations, dedup, reductions, pivot, '
              'mergesort, unjoin, rowgroupmap, sort; real chunk files'],
@@ -565,8 +567,15 @@ def run_case(case):
         return outcome('trivial', digest=log.hexdigest(), nontrivial=False,
                        extra={'group': case['op'], 'why': why})
     big = max(len(t) - 1 for t in case['tables']) >= 2
+    if case['machine'] == 'knobs':
+        st = '%s:knobs:%s' % (case['op'], ','.join(sorted(set(
+            k for v in case['variants'] for k in v))))
+    else:
+        st = '%s:history:cache=%s:%s' % (case['op'], case['cache'], ''.join(
+            s[0][0] + ('f' if s[0] == 'PASS' and s[2] is None else '')
+            for s in case['steps']))
     return outcome('ok', digest=log.hexdigest(), probes=probes, steps=n,
-                   nontrivial=big, extra={'group': case['op']})
+                   nontrivial=big, states=[st], extra={'group': case['op']})
 
 
 def warmup():
